@@ -29,7 +29,9 @@ CFG = dict(
                   n_search=1500, search_seeds=4)],
     rule="seeded generator of cases (reset = fresh store + new process, full or light): 6..28 random ops after an optional scripted opening "
          "(late decided message for a past height + restart + the height again; certificates of several rounds with compaction/restart in "
-         "between); ops: start s | begin s | decide | decided h r root signers ok via | compact h | restart full reopen, heights 0..12 "
+         "between); ops: start s | begin s | decide | decided h r root signers ok via [sf=1: the store fails the first Save* call of this op] | "
+         "commits root vc (the running fresh instance decides through proposal + prepares + commits of operators 1..3 delivered to "
+         "runner.ProcessConsensus, vc=0: the runner's value check rejects from the quorum-completing commit on) | compact h | restart full reopen, heights 0..12 "
          "drawn around the controller height (a quarter of the cases stays at heights 0/1), rounds 1..3, signer sets = the five quorums of 4 "
          "operators (4%: sub-quorum), 5% invalid signatures, 3% a second value at the same height, 40% of decided messages through "
          "runner.ProcessConsensus, 15-20% of restarts close and reopen the Badger DB; every op is applied to the real objects and to the "
@@ -42,6 +44,8 @@ CFG = dict(
                   "restart = Validator.Stop, new Controller/AttesterRunner/Validator over the same store (15-20%: Badger closed and reopened), real Validator.Start"],
     assumptions=["at most f faulty operators: two quorum certificates for different values at one height do not exist (such replacements are exercised "
                  "for the model/implementation tie but not judged by the oracle)",
-                 "Badger transactions are atomic and durable; storage reads do not fail (a failed LoadHighestInstance is outside the model)",
+                 "Badger transactions are atomic and durable; storage reads do not fail (a failed LoadHighestInstance is outside the model); a FAILED "
+                 "write (op flag sf=1, flaky wrapper around the real store) is modelled: it must not weaken the in-process guarantee, but what was "
+                 "not written cannot survive a restart (the 'top decided is stored' oracle clause is not judged for a height whose write was made to fail)",
                  "the decided value of height h carries duty slot h (ValidateDecided does not check the value)"],
 )
